@@ -529,3 +529,30 @@ func guardIsLoopCond(fn *ssa.Function) func(guard) bool {
 	}
 	return func(g guard) bool { return g.at != nil && headers[g.at.Block()] }
 }
+
+// iterationSkips: is there a way through one iteration of the innermost loop around `must` (from the loop's body entry
+// back to its header, i.e. on to the next element) that does not execute `must`? Error exits leave the loop and are
+// not iterations that "continue".
+func iterationSkips(fn *ssa.Function, must ssa.Instruction) (bool, string) {
+	var inner *loopInfo
+	for _, li := range naturalLoops(fn) {
+		li := li
+		if li.body[must.Block()] && (inner == nil || len(li.body) < len(inner.body)) {
+			inner = &li
+		}
+	}
+	if inner == nil {
+		return false, ""
+	}
+	for _, s := range inner.header.Succs {
+		if !inner.body[s] || s == inner.header {
+			continue
+		}
+		q := pathQuery{fn: fn, goal: func(in ssa.Instruction) bool { return in.Block() == inner.header }, avoid: func(in ssa.Instruction) bool { return in == must },
+			avoidEdge: func(from, to *ssa.BasicBlock) bool { return !inner.body[to] }}
+		if reach, wit := pathFromBlock(q, s); reach {
+			return true, wit
+		}
+	}
+	return false, ""
+}
